@@ -281,6 +281,13 @@ class Connection(ExportImport):
             # We're currently joined to a transaction.
             raise ConnectionStateError("Cannot close a connection joined to "
                                        "a transaction")
+        if primary:
+            # Find out before anything is torn down, not half way through.
+            for connection in self.connections.values():
+                if not connection._needs_to_join:
+                    raise ConnectionStateError(
+                        "Cannot close a connection with a secondary "
+                        "connection joined to a transaction")
 
         self._cache.incrgc()  # This is a good time to do some GC
 
